@@ -446,6 +446,28 @@ func (h *hist) genTx(pp posTypes.Params, govOwner map[string]key, daoOwner key, 
 	k := h.pick()
 	t := txSpec{signer: k, attached: &k, fee: 0, wrongSub: -1}
 	minStake := pp.StakeMinimum
+	// a validator convicted of double signing tries to come back: stake again, begin unstaking, stake once more
+	if r.Chance(1, 5) {
+		ctx := sdk.NewContext(h.app.Store(), abci.Header{}, false, nil)
+		for _, c := range h.keys {
+			si, ok := h.app.PK.GetValidatorSigningInfo(ctx, c.addr)
+			if !ok || !si.Tombstoned || len(c.subs) > 0 {
+				continue
+			}
+			cc := c
+			ft := txSpec{signer: cc, attached: &cc, wrongSub: -1}
+			if v, found := h.validator(c.addr); found && v.status == 2 {
+				ft.msg = posTypes.MsgBeginUnstake{Address: c.addr}
+				ft.spec = "unstake:" + hx(c.addr)
+			} else {
+				amt := minStake + int64(r.Intn(1000))
+				ft.msg = posTypes.MsgStake{PubKey: c.pub, Value: sdk.NewInt(amt)}
+				ft.spec = fmt.Sprintf("stake:%s:%s:%d", hx(c.pub.RawBytes()), hx(c.addr), amt)
+			}
+			stats["tx/tombstoned-comeback"]++
+			return ft
+		}
+	}
 	switch c := r.Intn(20); {
 	case c < 6: // stake (a consensus key: never a multisig key)
 		for len(k.subs) > 0 {
@@ -622,11 +644,21 @@ func (h *hist) genTx(pp posTypes.Params, govOwner map[string]key, daoOwner key, 
 			break
 		}
 		t.feeOther = 1 + int64(r.Intn(int(have)/2))
+		stats["tx/variation/other-denom-fee/"+strings.SplitN(t.spec, ":", 2)[0]]++
 		if r.Bool() {
 			t.fee = 0
 		} else if r.Bool() && t.fee > 0 {
 			t.fee = 1
 		}
+	case 12, 13: // a message with a fee, paid (partly) in the other denomination
+		ctx := sdk.NewContext(h.app.Store(), abci.Header{}, false, nil)
+		have := h.app.AK.GetCoins(ctx, t.msg.GetSigner()).AmountOf("aaa").Int64()
+		if have < 2 || t.fee == 0 {
+			break
+		}
+		t.feeOther = 1 + int64(r.Intn(int(have)/2))
+		stats["tx/variation/other-denom-fee/"+strings.SplitN(t.spec, ":", 2)[0]]++
+		t.fee = []int64{0, 1, t.fee - 1, t.fee}[r.Intn(4)]
 	case 10: // a multisig attacker key for somebody else's message
 		for _, m := range h.keys {
 			if len(m.subs) > 0 && len(m.subs) < 7 {
@@ -914,23 +946,36 @@ func runHistory(r *rng.R, id, maxBlocks int, wo, wi *bufio.Writer) {
 		// aim some block times at the instants the rules are about: jailed-until and unstaking completion, +- a little
 		if r.Chance(1, 3) {
 			var instants []time.Time
-			for _, k := range h.keys {
+			var who []*key // the jailed validator an instant belongs to (nil for an unstaking completion)
+			for i := range h.keys {
+				k := h.keys[i]
 				if v, ok := h.validatorFull(k.addr); ok {
 					if v.Status == sdk.Unstaking {
 						instants = append(instants, v.UnstakingCompletionTime)
+						who = append(who, nil)
 					}
 					if v.Jailed {
 						if ju, ok := h.jailedUntil(k.addr); ok && ju.Year() < 3000 {
 							instants = append(instants, ju)
+							who = append(who, &h.keys[i])
 						}
 					}
 				}
 			}
 			if len(instants) > 0 {
-				x := instants[r.Intn(len(instants))]
+				j := r.Intn(len(instants))
+				x := instants[j]
 				d := []time.Duration{0, 1, -1, 400 * time.Millisecond, -400 * time.Millisecond, -900 * time.Millisecond, time.Second}[r.Intn(7)]
 				if t := x.Add(d); t.After(h.now) {
 					h.now = t
+					if who[j] != nil { // and the validator asks to be unjailed in exactly this block
+						k := *who[j]
+						ft := txSpec{signer: k, attached: &k, wrongSub: -1}
+						ft.msg = posTypes.MsgUnjail{ValidatorAddr: k.addr}
+						ft.spec = "unjail:" + hx(k.addr)
+						h.forced = append(h.forced, ft)
+						stats["tx/unjail-at-jailed-until"]++
+					}
 				}
 			}
 		}
